@@ -108,3 +108,48 @@ for _name, _K, _rel in (("_should_not_requirement_violations", "Dep", "realised_
                      # forbidden-import buckets: exactly the reported pairs that cross a layer boundary
                      ensures=[f"forall(Dep, lambda x: (x in result) == ({_an[1]} and (not is_none({_an[2]})) and {_rel}(self._module_requirement, unwrap({_an[2]}), x) and cross_layer(self._layer_to_module_mapping, x)))"],
                      properties=["C05"]))
+
+# ---------------------------------------------------------------- LayeredArchitecture (C16), string view
+vals.declare_obj("LayeredArchitecture", dict(_modules_by_layer_name="Dict[Str,Bag[Filter]]"))
+LA = "LayeredArchitecture"
+# class invariant: at most one layer is waiting for its modules (an empty list marks the layer currently being defined)
+REG.macro("la_pending", ["a", "l"], "(l in a._modules_by_layer_name) and not nonempty(a._modules_by_layer_name[l])")
+REG.macro("la_inv", ["a"], "forall(Str, Str, lambda l1, l2: implies(la_pending(a, l1) and la_pending(a, l2), l1 == l2))")
+REG.macro("la_assigned", ["a", "n"], "exists(Str, Filter, lambda l, f: (l in a._modules_by_layer_name) and (f in a._modules_by_layer_name[l]) and fid(f) == n)")
+REG.macro("la_others_unchanged", ["a", "b", "l"],
+          "forall(Str, lambda k: implies(k != l, ((k in b._modules_by_layer_name) == (k in a._modules_by_layer_name)) and "
+          "implies(k in a._modules_by_layer_name, same_elements(b._modules_by_layer_name[k], a._modules_by_layer_name[k]))))")
+REG.add(Contract(f"{LA}._get_layers_without_modules", module=M_LA, kind="method", view="string", params=dict(self=LA), returns="Bag[Str]",
+                 ensures=["forall(Str, lambda l: (l in result) == la_pending(self, l))"], returns_nodup=True, properties=["C16"]))
+REG.add(Contract(f"{LA}.with_layer", module=M_LA, kind="method", view="string", params=dict(self=LA), returns=LA, ensures=["result == self"], properties=["C16"]))
+REG.add(Contract(f"{LA}.layer", module=M_LA, kind="method", view="string", params=dict(self=LA, name="Str"), returns=LA, modifies=["self"],
+                 requires=["la_inv(self)"],
+                 # C16: a layer must receive its modules before the next layer is opened; a layer name can be defined once
+                 raises=[("ImproperlyConfigured", "exists(Str, lambda l: la_pending(self, l)) or (name in self._modules_by_layer_name)")],
+                 ensures=["name in self._modules_by_layer_name", "not nonempty(self._modules_by_layer_name[name])", "la_others_unchanged(old(self), self, name)", "la_inv(self)", "result == self"],
+                 properties=["C16", "C13"]))
+REG.add(Contract(f"{LA}._to_module_objects", module=M_LA, kind="method", view="string", params=dict(self=LA, modules="Bag[Str]"), returns="Bag[Filter]",
+                 ensures=["forall(Filter, lambda f: (f in result) == exists(Str, lambda n: (n in modules) and f == mk_filter_name(n)))"], properties=["C16"]))
+REG.add(Contract(f"{LA}._from_regex_to_module_objects", module=M_LA, kind="method", view="string", params=dict(self=LA, regex="Str"), returns="Bag[Filter]",
+                 ensures=["forall(Filter, lambda f: (f in result) == (f == mk_filter_regex(regex)))"], properties=["C16"]))
+for _variant, _ptype, _names in (("", "Str", "n == modules"), ("@list", "Bag[Str]", "n in modules")):
+    REG.add(Contract(f"{LA}.containing_modules{_variant}", module=M_LA, qualname=f"{LA}.containing_modules", kind="method", view="string",
+                     params=dict(self=LA, modules=_ptype), returns=LA, modifies=["self"], requires=["la_inv(self)"],
+                     # C16: a module name can be assigned to at most one layer, whether it is passed as a string or inside a list; modules need an open layer
+                     raises=[("ImproperlyConfigured", f"(not exists(Str, lambda l: la_pending(self, l))) or exists(Str, lambda n: ({_names}) and la_assigned(self, n))")],
+                     ensures=["forall(Str, lambda l: implies(la_pending(old(self), l), (l in self._modules_by_layer_name) and "
+                              f"forall(Filter, lambda f: (f in self._modules_by_layer_name[l]) == exists(Str, lambda n: ({_names}) and f == mk_filter_name(n))) and la_others_unchanged(old(self), self, l)))",
+                              "la_inv(self)", "result == self"],
+                     locals=dict(modules_list="Bag[Str]", layers_without_modules="Bag[Str]"),
+                     ghost_asserts=(["not (modules in existing_modules)"] if _ptype == "Str" else []), properties=["C16", "C13"]))
+REG.contracts[f"{LA}.containing_modules"].alt = REG.contracts[f"{LA}.containing_modules@list"]
+REG.add(Contract(f"{LA}.have_modules_with_names_matching", module=M_LA, kind="method", view="string", params=dict(self=LA, regex="Str"), returns=LA, modifies=["self"],
+                 requires=["la_inv(self)"],
+                 raises=[("ImproperlyConfigured", "not exists(Str, lambda l: la_pending(self, l))")],
+                 ensures=["forall(Str, lambda l: implies(la_pending(old(self), l), (l in self._modules_by_layer_name) and "
+                          "forall(Filter, lambda f: (f in self._modules_by_layer_name[l]) == (f == mk_filter_regex(regex))) and la_others_unchanged(old(self), self, l)))",
+                          "la_inv(self)", "result == self"],
+                 locals=dict(layers_without_modules="Bag[Str]"), properties=["C16", "C13"]))
+REG.add(Contract(f"{LA}.__init__", module=M_LA, kind="method", view="string", params=dict(self=LA), returns="None", modifies=["self"],
+                 ensures=["not nonempty(self._modules_by_layer_name)", "la_inv(self)"], properties=["C16"],
+                 note="establishes the class invariant la_inv, which every mutating method requires and re-establishes: it holds after every finite call sequence"))
